@@ -1413,6 +1413,7 @@ func TestCheck(t *testing.T) {
 		{Name: "claim", Bound: 0, Wrap: report.Bubble(t), Body: func(r *explore.Run) { claimBody(r, rep, "claim", masks, nFilters) }},
 		{Name: "fault", Bound: 1, Wrap: report.Bubble(t), Body: func(r *explore.Run) { faultBody(r, rep, "fault", bases) }},
 		{Name: "publish/observed-composed", Bound: 0, Wrap: report.Bubble(t), Body: func(r *explore.Run) { observedBody(r, rep, "publish/observed-composed") }},
+		{Name: "publish/xr-replaced-by-namesake", Bound: 0, Wrap: report.Bubble(t), Body: func(r *explore.Run) { recreateBody(r, rep, "publish/xr-replaced-by-namesake") }},
 	}
 	rep.SelfCheck(t, scs[0], nil)
 	rep.SelfCheck(t, scs[2], nil)
